@@ -110,7 +110,19 @@ pub fn layouts(p: &RefPacket, cap: usize) -> (Vec<Vec<u8>>, bool) {
 }
 
 fn tiny_names() -> Vec<RefName> {
-    vec![RefName::root(), RefName::txt("a"), RefName::txt("b"), RefName::txt("a.a"), RefName::txt("a.b"), RefName::txt("b.a"), RefName::txt("b.b")]
+    vec![
+        RefName::root(),
+        RefName::txt("a"),
+        RefName::txt("b"),
+        RefName::txt("a.a"),
+        RefName::txt("a.b"),
+        RefName::txt("b.a"),
+        RefName::txt("b.b"),
+        // the same letters in another case: a foreign encoder may point at them, ours must not merge them
+        RefName::txt("A"),
+        RefName::txt("A.a"),
+        RefName::txt("a.A"),
+    ]
 }
 
 pub fn layout_packets() -> Vec<RefPacket> {
@@ -134,7 +146,7 @@ pub fn layout_packets() -> Vec<RefPacket> {
 }
 
 pub fn run(ctx: &Ctx) {
-    ctx.set_rule("every enumerated byte string is parsed; when accepted, the parsed packet is serialised plain and compressed, each output parsed again and all observations compared field by field. Sources: (i) 1715 reference packets over 7 names x 5 record kinds in every valid compression layout (pointer-to-pointer included), (ii) all 65536 flag words with and without an OPT record, (iii) every type code with empty RDATA, unknown types and classes of content, OPT at every index, the packet spaces of C02, (iv) the malformed-input generators of C01 (prefix trees, cut/perturb, pointer graphs). non-trivial = the parser accepted the input");
+    ctx.set_rule("every enumerated byte string is parsed; when accepted, the parsed packet is serialised plain and compressed, each output parsed again and all observations compared field by field. Sources: (i) 5000 reference packets over 10 names (incl. case variants) x 5 record kinds in every valid compression layout (pointer-to-pointer included), (ii) all 65536 flag words with and without an OPT record, (iii) every type code with empty RDATA, unknown types and classes of content, OPT at every index, the packet spaces of C02, (iv) the malformed-input generators of C01 (prefix trees, cut/perturb, pointer graphs). non-trivial = the parser accepted the input");
     ctx.assume("observable equality is equality of every public field and accessor (flags, opcode, rcode, EDNS data, every record field); information the library does not expose (OPT flag bits, reserved opcode numbers) is not compared");
     // (i) compression layouts
     let lp = layout_packets();
@@ -164,7 +176,7 @@ pub fn run(ctx: &Ctx) {
     if capped.load(std::sync::atomic::Ordering::Relaxed) {
         ctx.cap_hit("layout enumeration capped at 20000 layouts for some packet");
     }
-    ctx.space("compression layouts: 5 record kinds x 7^3 name assignments, every valid layout of every name occurrence", total.load(std::sync::atomic::Ordering::Relaxed), "complete");
+    ctx.space("compression layouts: 5 record kinds x 10^3 name assignments, every valid layout of every name occurrence", total.load(std::sync::atomic::Ordering::Relaxed), "complete");
     if let Some(p) = lp.get(700) {
         let (ls, _) = layouts(p, 50);
         ctx.sample(json!({"kind": "bytes", "msg": hex(ls.last().unwrap()), "note": "one compression layout of a reference packet"}));
